@@ -561,4 +561,206 @@ theorem insertPending_has {now h : Nat} {new : List (Nat × Nat)} {tbf : List En
         exact ⟨⟨p.1, p.2, h, now + pendingTimeout⟩,
           insertPending_mono (List.mem_append_right _ (List.mem_singleton.2 rfl)), rfl, rfl, rfl⟩
     · exact ih hp
+/-! ### liveness: a queued version stays queued until it is scheduled, under explicit fairness -/
+
+theorem addKeys_shape_legal (s : State) (h : Nat) (incoming locals : List (Nat × Nat)) (choice : List Entry) :
+    ∃ X ill, addKeys dist s h incoming locals choice =
+      ((nextKeys dist (addCore dist s h incoming locals).1 X).1,
+       { ret := (addCore dist s h incoming locals).2 ++ (nextKeys dist (addCore dist s h incoming locals).1 X).2.ret,
+         failed := (nextKeys dist (addCore dist s h incoming locals).1 X).2.failed,
+         illegal := ill }) ∧
+      (ill = false → (nextKeys dist (addCore dist s h incoming locals).1 X).2.illegal = false) := by
+  unfold addKeys
+  generalize addCore dist s h incoming locals = r
+  obtain ⟨s1, fast⟩ := r
+  cases fast with
+  | nil => exact ⟨choice, (nextKeys dist s1 choice).2.illegal, rfl, id⟩
+  | cons f fs =>
+    cases choice with
+    | nil => exact ⟨[], true, rfl, fun h => by cases h⟩
+    | cons c rest =>
+      simp only []
+      split
+      · exact ⟨rest, (nextKeys dist s1 rest).2.illegal, rfl, id⟩
+      · exact ⟨[], true, rfl, fun h => by cases h⟩
+
+/-- the operations that end in `next_keys_to_fetch` -/
+def Op.schedules : Op → Bool
+  | .add .. | .put .. | .early .. | .next .. => true
+  | _ => false
+
+/-- Fairness of one operation towards the version `(k, t)` queued for holder `h`: the choice witness is legal, the
+holder is not reported as timed out, and the operation does not take the queued entry away by anything but
+scheduling it (it is not reported held, not notified as put / completed, not past its pending deadline when the
+queue is swept, not beyond a newly set farthest distance). -/
+def Keeps (k t h : Nat) (s : State) (op : Op) : Prop :=
+  (step dist s op).2.illegal = false ∧ h ∉ (step dist s op).2.failed ∧
+  (match op with
+   | .add _ _ locals _ => locals.lookup k ≠ some t ∧
+       ∀ x ∈ s.tbf, x.key = k → x.ty = t → x.holder = h → s.now < x.deadline
+   | .put k' t' _ => ¬(k = k' ∧ t = t')
+   | .early k' t' _ => ¬(k = k' ∧ t = t')
+   | .full (some k') => dist k ≤ dist k'
+   | _ => True)
+
+theorem nextKeys_keepsV {s : State} {c : List Entry} {k t h : Nat}
+    (hq : hasKTH s.tbf k t h = true) (hresp : h ∉ (nextKeys dist s c).2.failed) :
+    hasKTH (nextKeys dist s c).1.tbf k t h = true ∨ hasKT (nextKeys dist s c).2.ret k t = true := by
+  obtain ⟨e, he, hk, ht, hh⟩ := (hasKTH_true_iff _ _ _ _).1 hq
+  have hf := (nextKeys_fields dist s c).2.2.2
+  have hep : e ∈ pTbf s := by
+    simp only [pTbf, List.mem_filter, Bool.not_eq_true', List.contains_eq_mem, decide_eq_false_iff_not]
+    refine ⟨he, ?_⟩
+    rw [hh]; rw [hf] at hresp; exact hresp
+  rcases nextKeys_keeps_or_schedules dist (c := c) hep with h1 | h1
+  · exact Or.inl ((hasKTH_true_iff _ _ _ _).2 ⟨e, h1, hk, ht, hh⟩)
+  · rw [hk, ht] at h1; exact Or.inr h1
+
+theorem addCore_keeps {s : State} {h : Nat} {incoming locals : List (Nat × Nat)} {e : Entry}
+    (he : e ∈ s.tbf) (hheld : locals.lookup e.key ≠ some e.ty) (halive : s.now < e.deadline) :
+    e ∈ (addCore dist s h incoming locals).1.tbf := by
+  have h2 : e ∈ tbf2 s locals := by
+    simp only [tbf2, tbf1, List.mem_filter, Bool.not_eq_true', heldSame, beq_eq_false_iff_ne, ne_eq]
+    exact ⟨⟨he, hheld⟩, (alive_iff _ _).2 halive⟩
+  rcases addCore_cases dist s h incoming locals with ⟨p, _, _, hc⟩ | ⟨p, _, _, hc⟩ | ⟨_, hc⟩
+  · rw [hc]; exact h2
+  · rw [hc]; exact h2
+  · rw [hc]; exact insertPending_mono h2
+
+theorem hasKTH_filter {l : List Entry} {k t h : Nat} {p : Entry → Bool}
+    (hq : hasKTH l k t h = true) (hp : ∀ e ∈ l, e.key = k → e.ty = t → e.holder = h → p e = true) :
+    hasKTH (l.filter p) k t h = true := by
+  obtain ⟨e, he, hk, ht, hh⟩ := (hasKTH_true_iff _ _ _ _).1 hq
+  exact (hasKTH_true_iff _ _ _ _).2 ⟨e, List.mem_filter.2 ⟨he, hp e he hk ht hh⟩, hk, ht, hh⟩
+
+/-- a fair operation keeps the version queued for its holder, or schedules it -/
+theorem keeps_step {s : State} {op : Op} {k t h : Nat}
+    (hq : hasKTH s.tbf k t h = true) (hk : Keeps dist k t h s op) :
+    hasKTH (step dist s op).1.tbf k t h = true ∨ hasKT (step dist s op).2.ret k t = true := by
+  obtain ⟨_, hresp, hop⟩ := hk
+  cases op with
+  | add h' inc loc c =>
+    obtain ⟨X, ill, hx⟩ := addKeys_shape dist s h' inc loc c
+    change h ∉ (addKeys dist s h' inc loc c).2.failed at hresp
+    show hasKTH (addKeys dist s h' inc loc c).1.tbf k t h = true ∨
+      hasKT (addKeys dist s h' inc loc c).2.ret k t = true
+    rw [hx] at hresp ⊢
+    obtain ⟨e, he, hek, het, heh⟩ := (hasKTH_true_iff _ _ _ _).1 hq
+    have h1 : e ∈ (addCore dist s h' inc loc).1.tbf :=
+      addCore_keeps dist he (by rw [hek, het]; exact hop.1) (hop.2 e he hek het heh)
+    have hq1 : hasKTH (addCore dist s h' inc loc).1.tbf k t h = true :=
+      (hasKTH_true_iff _ _ _ _).2 ⟨e, h1, hek, het, heh⟩
+    rcases nextKeys_keepsV dist (c := X) hq1 hresp with h2 | h2
+    · exact Or.inl h2
+    · right
+      show hasKT (_ ++ _) k t = true
+      rw [hasKT_append, h2, Bool.or_true]
+  | put k' t' c =>
+    apply nextKeys_keepsV dist _ hresp
+    apply hasKTH_filter hq
+    intro e _ hek het _
+    simp only [sameKT, Bool.not_eq_true', Bool.and_eq_false_imp, beq_iff_eq, beq_eq_false_iff_ne]
+    intro h1 h2; exact hop ⟨by rw [← hek, h1], by rw [← het, h2]⟩
+  | early k' t' c =>
+    apply nextKeys_keepsV dist _ hresp
+    apply hasKTH_filter hq
+    intro e _ hek het _
+    simp only [sameKT, Bool.not_eq_true', Bool.and_eq_false_imp, beq_iff_eq, beq_eq_false_iff_ne]
+    intro h1 h2; exact hop ⟨by rw [← hek, h1], by rw [← het, h2]⟩
+  | next c => exact nextKeys_keepsV dist hq hresp
+  | setRange r => exact Or.inl hq
+  | age d => exact Or.inl hq
+  | full k' =>
+    cases k' with
+    | none => exact Or.inl hq
+    | some k' =>
+      left
+      show hasKTH (setFull dist s (dist k')).tbf k t h = true
+      have hkeep : hasKTH (s.tbf.filter (fun e => farthestKeep (dist e.key) (dist k'))) k t h = true := by
+        apply hasKTH_filter hq
+        intro e _ hek _ _
+        rw [hek]; exact (keep_iff _ _).2 hop
+      unfold setFull
+      split
+      · split
+        · exact hq
+        · exact hkeep
+      · exact hkeep
+
+/-- fairness along a trace, required only until the version has been scheduled -/
+def FairTrace (k t h : Nat) : State → List Op → Prop
+  | _, [] => True
+  | s, op :: ops => Keeps dist k t h s op ∧
+      (hasKT (step dist s op).2.ret k t = true ∨ FairTrace k t h (step dist s op).1 ops)
+
+theorem run_cons (s : State) (op : Op) (ops : List Op) :
+    run dist s (op :: ops) = run dist (step dist s op).1 ops := rfl
+
+theorem run_append (s : State) (a b : List Op) : run dist s (a ++ b) = run dist (run dist s a) b := by
+  simp [run, List.foldl_append]
+
+theorem outs_append (s : State) (a b : List Op) :
+    outs dist s (a ++ b) = outs dist s a ++ outs dist (run dist s a) b := by
+  induction a generalizing s with
+  | nil => rfl
+  | cons op ops ih => simp only [List.cons_append, outs, run_cons, ih]
+
+/-- along a fair trace the version is still queued for its holder at the end, or some call returned it -/
+theorem fair_trace {s : State} {ops : List Op} {k t h : Nat}
+    (hq : hasKTH s.tbf k t h = true) (hf : FairTrace dist k t h s ops) :
+    hasKTH (run dist s ops).tbf k t h = true ∨ ∃ o ∈ outs dist s ops, hasKT o.ret k t = true := by
+  induction ops generalizing s with
+  | nil => exact Or.inl hq
+  | cons op ops ih =>
+    obtain ⟨hk, hrest⟩ := hf
+    rcases keeps_step dist hq hk with h1 | h1
+    · rcases hrest with h2 | h2
+      · exact Or.inr ⟨_, List.mem_cons_self, h2⟩
+      · rcases ih h1 h2 with h3 | ⟨o, ho, h3⟩
+        · exact Or.inl h3
+        · exact Or.inr ⟨o, List.mem_cons_of_mem _ ho, h3⟩
+    · exact Or.inr ⟨_, List.mem_cons_self, h1⟩
+
+/-- after a scheduling operation with a legal choice, an entry whose version is not in flight is queued only
+because the limit is reached -/
+theorem step_closest {s : State} {op : Op} (hs : op.schedules = true)
+    (hok : (step dist s op).2.illegal = false) :
+    ∀ e ∈ (step dist s op).1.tbf, hasKT (step dist s op).1.ogf e.key e.ty = false →
+      maxParallelFetch ≤ (step dist s op).1.ogf.length := by
+  cases op with
+  | add h inc loc c =>
+    obtain ⟨X, ill, hx, hill⟩ := addKeys_shape_legal dist s h inc loc c
+    change (addKeys dist s h inc loc c).2.illegal = false at hok
+    show ∀ e ∈ (addKeys dist s h inc loc c).1.tbf, hasKT (addKeys dist s h inc loc c).1.ogf e.key e.ty = false →
+      maxParallelFetch ≤ (addKeys dist s h inc loc c).1.ogf.length
+    rw [hx] at hok ⊢
+    intro e he hno
+    exact ((nextKeys_closest dist (hill hok)).2 e he hno).1
+  | put k t c => intro e he hno; exact ((nextKeys_closest dist hok).2 e he hno).1
+  | early k t c => intro e he hno; exact ((nextKeys_closest dist hok).2 e he hno).1
+  | next c => intro e he hno; exact ((nextKeys_closest dist hok).2 e he hno).1
+  | setRange r => cases hs
+  | age d => cases hs
+  | full k => cases hs
+
+theorem maxParallelFetch_pos : 0 < maxParallelFetch := by decide
+
+/-- A fair trace that ends, after a scheduling call with a legal choice, with nothing in flight (every scheduled
+fetch has been acknowledged) has scheduled the version. -/
+theorem progress_trace {s : State} {pre : List Op} {op : Op} {k t h : Nat}
+    (hq : hasKTH s.tbf k t h = true) (hf : FairTrace dist k t h s (pre ++ [op]))
+    (hs : op.schedules = true) (hok : (step dist (run dist s pre) op).2.illegal = false)
+    (hacked : (run dist s (pre ++ [op])).ogf = []) :
+    ∃ o ∈ outs dist s (pre ++ [op]), hasKT o.ret k t = true := by
+  rcases fair_trace dist hq hf with h1 | h1
+  · exfalso
+    obtain ⟨e, he, _, _, _⟩ := (hasKTH_true_iff _ _ _ _).1 h1
+    rw [run_append] at he hacked
+    have := step_closest dist hs hok e he (by
+      show hasKT (run dist (run dist s pre) [op]).ogf e.key e.ty = false
+      rw [hacked]; rfl)
+    have h0 : (step dist (run dist s pre) op).1.ogf = [] := hacked
+    rw [h0] at this
+    exact absurd this (by decide)
+  · exact h1
 end SafeNet.Fetcher
